@@ -679,14 +679,14 @@ class PropertyFilter:
         except KeyError:
             return False
 
-        if self.time_range and not self.time_range.match(prop, tzify):
-            return False
-
-        for child in self.children:
-            if not child.match(prop):
-                return False
-
-        return True
+        # A property may occur several times in a component; the filter
+        # matches if one of the instances satisfies all conditions.
+        for instance in prop if isinstance(prop, list) else [prop]:
+            if self.time_range and not self.time_range.match(instance, tzify):
+                continue
+            if all(child.match(instance) for child in self.children):
+                return True
+        return False
 
     def match_indexes(self, indexes: SubIndexDict, tzify: TzifyFunction) -> bool:
         myindex = "P=" + self.name
@@ -947,7 +947,9 @@ class ICalendarFile(File):
                     if p is None:
                         pass
                     elif len(segments) == 1:
-                        yield p.to_ical()
+                        # a property may occur several times in a component
+                        for v in p if isinstance(p, list) else [p]:
+                            yield v.to_ical()
                     elif len(segments) == 2 and segments[1].startswith("A="):
                         # Parameter values, as announced by
                         # ParameterFilter.index_keys().
